@@ -154,7 +154,10 @@ func c07Row(args [][]string) (level uint32, o18, inbm, fr, nbm bool, battr, blev
 func c07Run(args [][]string) []string {
 	w := c07w
 	op := ai(args[0][0])
-	if op != 1 && op != 3 && op != 4 && op != 5 && op != 6 {
+	if op == 8 {
+		return c07RunFixture()
+	}
+	if op != 1 && op != 3 && op != 4 && op != 5 && op != 6 && op != 7 {
 		return []string{"9"}
 	}
 	if (op == 5 || op == 6) && len(args[0]) != 2 {
@@ -170,6 +173,9 @@ func c07Run(args [][]string) []string {
 	c07Content.counters(w)
 	if op == 6 {
 		return c07RunListing(w, int(ai(args[0][1])))
+	}
+	if op == 7 {
+		return c07RunClass(w, args)
 	}
 	fn := &ptttype.Filename_t{}
 	copy(fn[:], c07Article)
